@@ -1,10 +1,11 @@
 #!/venv/bin/python
 """Run the registered checks against a seeded mutation.
 
-  seedcheck.py import <Cxx> <dir>    copy a sub-agent's deliverables (M*.diff, M*_demo.py, meta.json) to seeded/<Cxx>/
+  seedcheck.py import <Cxx> <dir>    copy a sub-agent's deliverables (M*.diff, M*_demo.py, meta.json) to
+                                     seeded/<Cxx>-M<n>/{patch.diff, demo.py, meta.json}
   seedcheck.py run <Cxx> [M1 ...] [--also C05,C07] [--tier quick]
         for each mutation: confirm the demo (clean: exit 0, mutated: exit 1), apply the patch to /repo,
-        run check.py for the property (and --also), undo the patch, record seeded/<Cxx>/<M>.result.json
+        run check.py for the property (and --also), undo the patch, record seeded/<Cxx>-M<n>/result.json
 
 The patch is applied with `git -C /repo apply` and always undone with `git -C /repo checkout -- .`.
 """
@@ -31,22 +32,29 @@ def repo_clean():
 
 
 def do_import(prop, src):
-    dst = VERIF / 'seeded' / prop
-    dst.mkdir(parents=True, exist_ok=True)
     src = Path(src)
-    for f in sorted(src.iterdir()):
-        if f.name == 'PROMPT.txt' or f.is_dir():
-            continue
-        shutil.copy(f, dst / f.name)
-    print('imported', sorted(x.name for x in dst.iterdir()))
+    meta = json.loads((src / 'meta.json').read_text()) if (src / 'meta.json').exists() else {'mutations': []}
+    for diff in sorted(src.glob('M*.diff')):
+        m = diff.stem
+        dst = VERIF / 'seeded' / ('%s-%s' % (prop, m))
+        dst.mkdir(parents=True, exist_ok=True)
+        shutil.copy(diff, dst / 'patch.diff')
+        demo = src / ('%s_demo.py' % m)
+        if demo.exists():
+            shutil.copy(demo, dst / 'demo.py')
+        info = dict(([x for x in meta.get('mutations', []) if x.get('id') == m] or [{}])[0])
+        info.update({'property': prop, 'id': '%s-%s' % (prop, m),
+                     'origin': 'fresh sub-agent given only the property text and a scratch worktree of /repo'})
+        (dst / 'meta.json').write_text(json.dumps(info, indent=1))
+        print('imported', dst)
 
 
 def do_run(prop, muts, also, tier):
-    d = VERIF / 'seeded' / prop
-    muts = muts or sorted(p.stem for p in d.glob('M*.diff'))
+    muts = muts or sorted(p.name.split('-')[1] for p in (VERIF / 'seeded').glob('%s-M*' % prop))
     for m in muts:
-        patch = d / ('%s.diff' % m)
-        demo = d / ('%s_demo.py' % m)
+        d = VERIF / 'seeded' / ('%s-%s' % (prop, m))
+        patch = d / 'patch.diff'
+        demo = d / 'demo.py'
         res = {'property': prop, 'mutation': m}
         if not repo_clean():
             print('refusing: /repo has uncommitted changes')
@@ -58,7 +66,7 @@ def do_run(prop, muts, also, tier):
         if rc != 0:
             res['apply_error'] = out[-400:]
             print(prop, m, 'patch does not apply:', out[-200:])
-            (d / ('%s.result.json' % m)).write_text(json.dumps(res, indent=1))
+            (d / 'result.json').write_text(json.dumps(res, indent=1))
             continue
         try:
             if demo.exists():
@@ -91,7 +99,7 @@ def do_run(prop, muts, also, tier):
             sh(['git', '-C', str(REPO), 'checkout', '--', '.'])
         res['caught'] = res.get('checks', {}).get(prop, {}).get('exit') == 1
         res['caught_by'] = [c for c, v in res.get('checks', {}).items() if v['exit'] == 1]
-        (d / ('%s.result.json' % m)).write_text(json.dumps(res, indent=1))
+        (d / 'result.json').write_text(json.dumps(res, indent=1))
         print(prop, m, 'demo clean/mutated:', res.get('demo_clean_exit'), res.get('demo_mutated_exit'), '| unit:', res.get('unit_tests'),
               '| caught by:', res['caught_by'])
     return 0
